@@ -337,4 +337,124 @@ def leafStableL (env : Env) (needFlag : Bool) (member : Schema) : List Elem → 
   | m :: rest => leafStable env needFlag member m && leafStableL env needFlag member rest
 end
 
+/-! ### the history of an element: what happened to it before the `set()` the property talks about
+
+The element need not be fresh.  Earlier calls — `set()` on the element, a member's own `set()`
+(`el['x'].set(v)`), item assignment (`el['x'] = v`, `el[0] = v`) — are compositions of `setNative`
+on sub-states and are run here; `set_flat()` is not modelled here (C01's subject): the state it
+leaves is taken from the real element and checked with `shapedB`. -/
+
+inductive Key | name (k : Str) | idx (i : Nat)
+  deriving DecidableEq, Inhabited
+
+/-- what a step of the history raises: `set()`'s exceptions, and the lookups' (`el[key]`, `el[i]`) -/
+inductive StepRaise | keyError | typeError | indexError
+  deriving DecidableEq, Repr, Inhabited
+
+def Raise.toStep : Raise → StepRaise
+  | .keyError => .keyError
+  | .typeError => .typeError
+
+def liftSet (r : Except Raise (Elem × Bool)) : Except StepRaise (Elem × Bool) :=
+  match r with
+  | .ok p => .ok p
+  | .error e => .error e.toStep
+
+/-- `op(el[p1][p2]…)`: the whole element after an operation on the member at `path`.  A Dict
+    member that is not there is a KeyError (`dict.__getitem__`), a sequence index out of range an
+    IndexError. -/
+def updateAt (op : Schema → Elem → Except StepRaise (Elem × Bool)) :
+    Schema → Elem → List Key → Except StepRaise (Elem × Bool)
+  | s, cur, [] => op s cur
+  | .dict _ _ _ _ fields, .dict ms, .name k :: rest =>
+    match lookup k ms, findField k fields with
+    | some m, some f =>
+      match updateAt op f m rest with
+      | .ok (m', fl) => .ok (.dict (replace k m' ms), fl)
+      | .error r => .error r
+    | _, _ => .error .keyError
+  | .seq _ _ member, .seq ms, .idx i :: rest =>
+    match ms[i]? with
+    | some m =>
+      match updateAt op member m rest with
+      | .ok (m', fl) => .ok (.seq (ms.set i m'), fl)
+      | .error r => .error r
+    | none => .error .indexError
+  | _, _, _ :: _ => .error .typeError
+
+/-- `el[key] = x` with a native `x`.
+    `Mapping.__setitem__` (Dict): `key not in self` → TypeError, else `self[key].set(x)`.
+    `SparseDict.__setitem__`: a key that is there: `self[key].set(x)`; a declared field that is not:
+    `schema(x, parent=self)` is stored (a fresh member set with `x`; should that `set()` raise,
+    nothing is stored); no such field: TypeError.  Both are `Dict.set`'s loop body for the single
+    pair `(key, x)` (`setPairs`), behind the membership test.
+    `List.__setitem__` (`fresh = false`): `self[i].set(x)`.
+    `Sequence.__setitem__` (Array, `fresh = true`): `member_schema(value=x)` replaces the member;
+    the IndexError of `list.__setitem__` comes after the member was built.
+    Nothing is returned: the flag is reported as true. -/
+def itemAssign (env : Env) (key : Key) (fresh : Bool) (x : Native) : Schema → Elem → Except StepRaise (Elem × Bool)
+  | .dict _ _ mode _ fields, .dict ms =>
+    match key with
+    | .name k =>
+      if (lookup k ms).isNone && (decide (mode = .dense) || (findField k fields).isNone) then .error .typeError
+      else match setPairs env fields ms [(.text k, x)] with
+        | .ok (ms', _) => .ok (.dict ms', true)
+        | .error r => .error r.toStep
+    | .idx _ => .error .typeError
+  | .seq _ _ member, .seq ms =>
+    match key with
+    | .idx i =>
+      if fresh then
+        match setNative env member (blank env member) x with
+        | .error r => .error r.toStep
+        | .ok (m, _) => if i < ms.length then .ok (.seq (ms.set i m), true) else .error .indexError
+      else
+        match ms[i]? with
+        | none => .error .indexError
+        | some m =>
+          match setNative env member m x with
+          | .error r => .error r.toStep
+          | .ok (m', _) => .ok (.seq (ms.set i m'), true)
+    | .name _ => .error .typeError
+  | _, _ => .error .typeError
+
+inductive Step
+  | set (path : List Key) (x : Native)                               -- `el[p1][p2]….set(x)`
+  | setItem (path : List Key) (key : Key) (fresh : Bool) (x : Native) -- `el[p1][p2]…[key] = x`
+
+def applyStep (env : Env) (s : Schema) (cur : Elem) : Step → Except StepRaise (Elem × Bool)
+  | .set path x => updateAt (fun s' c => liftSet (setNative env s' c x)) s cur path
+  | .setItem path key fresh x => updateAt (itemAssign env key fresh x) s cur path
+
+/-- a history that raised nowhere -/
+def runSteps (env : Env) (s : Schema) : Elem → List Step → Except StepRaise Elem
+  | cur, [] => .ok cur
+  | cur, st :: rest =>
+    match applyStep env s cur st with
+    | .ok (e, _) => runSteps env s e rest
+    | .error r => .error r
+
+/-- the always-present keys come first and in place, keys distinct (`Proofs.C03.KeysOk`) -/
+def keysOkB (B ms : List (Str × Elem)) : Bool :=
+  decide (ms.map (·.1)).Nodup && decide ((ms.map (·.1)).take B.length = B.map (·.1))
+
+mutual
+/-- `Proofs.C03.Shaped` as a function: the state conforms to the schema.  The runner evaluates it
+    on states taken from the real element (after `set_flat()`, after a step that raised). -/
+def shapedB (env : Env) : Schema → Elem → Bool
+  | .leaf .., .leaf .. => true
+  | .dict _ _ mode _ fields, .dict ms => keysOkB (blankMs env mode fields) ms && shapedMsB env fields ms
+  | .seq _ _ member, .seq ms => shapedLB env member ms
+  | _, _ => false
+def shapedMsB (env : Env) (fields : List Schema) : List (Str × Elem) → Bool
+  | [] => true
+  | (k, m) :: rest =>
+    (match findField k fields with
+     | some f => shapedB env f m
+     | none => false) && shapedMsB env fields rest
+def shapedLB (env : Env) (member : Schema) : List Elem → Bool
+  | [] => true
+  | m :: rest => shapedB env member m && shapedLB env member rest
+end
+
 end Flatland.C03
